@@ -400,6 +400,32 @@ func (e *c09Env) inputs() []c09Input {
 			add(fmt.Sprintf("browser-hello-%d-reframed-short", br), tlsRecord(0x16, 3, 1, len(body), body), "authFail", 1)
 		}
 	}
+	// 5. hand-made minimal ClientHellos: no key_share extension at all / malformed key_share contents
+	// (parseKeyShare is reached outside parseClientHello, so its own recover() guard is what stands between these and a crash)
+	mkHello := func(exts []byte) []byte {
+		body := []byte{3, 3}
+		body = append(body, r.bytes(32)...)
+		body = append(body, 32)
+		body = append(body, r.bytes(32)...)
+		body = append(body, 0, 2, 0x13, 0x01, 1, 0)
+		body = append(body, byte(len(exts)>>8), byte(len(exts)))
+		body = append(body, exts...)
+		hs := append([]byte{1, byte(len(body) >> 16), byte(len(body) >> 8), byte(len(body))}, body...)
+		return tlsRecord(0x16, 3, 1, len(hs), hs)
+	}
+	ext := func(typ uint16, data []byte) []byte {
+		return append([]byte{byte(typ >> 8), byte(typ), byte(len(data) >> 8), byte(len(data))}, data...)
+	}
+	add("minimal-hello-no-extensions", mkHello(nil), "authFail", 1)
+	add("minimal-hello-no-keyshare", mkHello(ext(0x000a, []byte{0, 2, 0, 0x1d})), "authFail", 1)
+	add("minimal-hello-keyshare-empty", mkHello(ext(0x0033, nil)), "authFail", 1)
+	add("minimal-hello-keyshare-1byte", mkHello(ext(0x0033, []byte{0})), "authFail", 1)
+	add("minimal-hello-keyshare-len-beyond", mkHello(ext(0x0033, []byte{0, 0xff, 0x00, 0x17, 0x00, 0x02, 1, 2})), "authFail", 1)
+	add("minimal-hello-keyshare-x25519-truncated", mkHello(ext(0x0033, append([]byte{0, 36, 0x00, 0x1d, 0x00, 0x20}, r.bytes(10)...))), "authFail", 1)
+	add("minimal-hello-keyshare-x25519-wronglen", mkHello(ext(0x0033, append([]byte{0, 20, 0x00, 0x1d, 0x00, 0x10}, r.bytes(16)...))), "authFail", 1)
+	add("minimal-hello-keyshare-ok-garbage", mkHello(ext(0x0033, append([]byte{0, 36, 0x00, 0x1d, 0x00, 0x20}, r.bytes(32)...))), "authFail", 1)
+	add("minimal-hello-extension-len-beyond", mkHello([]byte{0x00, 0x33, 0x00, 0x40, 1, 2, 3}), "authFail", 1)
+	add("minimal-hello-extension-header-cut", mkHello([]byte{0x00, 0x33, 0x00}), "authFail", 1)
 	// 6. HTTP requests
 	get := "GET / HTTP/1.1\r\nHost: example.com\r\nUser-Agent: curl/8\r\n"
 	add("http-get", []byte(get+"\r\n"), "authFail", 1)
